@@ -316,6 +316,12 @@ func init() {
 		}
 		// restart with staged state; requests arrive at every moment of start-up recovery
 		if g.pct(60) {
+			if g.pct(60) {
+				// the partial is completed right before the crash: with luck it is
+				// still waiting to be validated, and start-up recovery has a file
+				// to validate while the requests below arrive
+				sc.Peer = append(sc.Peer, PeerOp{Kind: "data", Source: "src1", Key: goodKey, Parts: []PeerPart{{1, 50, sc.PeerFiles[1].Size}}})
+			}
 			sc.Peer = append(sc.Peer, PeerOp{Kind: "crash", Sync: true})
 			sc.GateWeight = map[string]int{"stage.recover.begin": g.pick(1, 3, 10), "stage.process.begin": g.pick(1, 10)}
 			for i := 0; i < 2+g.n(3); i++ {
